@@ -3526,6 +3526,11 @@ class TLSConnection(TLSRecordLayer):
         real_version = clientHello.client_version
         if real_version >= (3, 3):
             ext = clientHello.getExtension(ExtensionType.supported_versions)
+            if ext and not ext.versions:
+                for result in self._sendError(
+                        AlertDescription.decode_error,
+                        "Empty supported_versions extension"):
+                    yield result
             if ext:
                 for v in ext.versions:
                     if v in KNOWN_VERSIONS and v > real_version:
